@@ -261,3 +261,31 @@ def co_zip_dict(ks, vs):
     d = dict(zip(ks, vs))
     d[3].append(1)
 CASES['co_zip_dict'] = [('L', 'LL3')]
+
+
+def co_aug_subscript_elem(xs):
+    x = list(xs)
+    x[0] += [1]
+CASES['co_aug_subscript_elem'] = [('LL',)]
+REGRESSION.append('co_aug_subscript_elem')
+
+
+def co_aug_subscript_number(xs):
+    x = list(xs)
+    x[0] += 1
+    return x
+CASES['co_aug_subscript_number'] = [('L',)]
+
+
+def co_aug_dict_elem(dl):
+    d = dict(dl)
+    d[0] += [5]
+CASES['co_aug_dict_elem'] = [('DL',)]
+REGRESSION.append('co_aug_dict_elem')
+
+
+def co_lambda_default(xs):
+    f = lambda x=xs: x
+    f().append(1)
+CASES['co_lambda_default'] = [('L',)]
+REGRESSION.append('co_lambda_default')
